@@ -46,6 +46,7 @@ def startOp (s : MSt) (o : Nat) : MSt :=
   { s with live := s.live ++ [o], newOp := if s.closed then some o else none }
 
 def stepItem (s : MSt) : TItem → MSt
+  | .exc c => { s with bootFails := s.bootFails ++ [s!"exception {c} escaped into the reactor"] }
   | .ev e =>
     let s := endStep s
     match e with
